@@ -52,6 +52,7 @@ fn fresh_keys(st: &mut ImplState, out: &mut Out) {
     let z = crate::zobrist::ZobristTable::new();
     let op = format!("s.new {}", zobrist_keys_text(&z));
     out.run(st, &op);
+    out.run(st, "s.keysgood");
     out.count("fresh_searchers");
 }
 
